@@ -222,3 +222,25 @@ def depth_of(T):
     if k in ('seqof', 'setof'): return 1 + depth_of(T[1])
     if k == 'choice': return 1 + max([depth_of(a) for a in T[1]] + [0])
     return 0
+
+
+def wf(T):
+    """siblings of SET/CHOICE and OPTIONAL runs of SEQUENCE have pairwise disjoint outer tags; no bare ANY there"""
+    k = T[0]
+    if k in ('imp', 'exp'):
+        if k == 'imp' and base_desc(T)[0] in ('choice', 'any') and T[2][0] not in ('imp', 'exp'):
+            return False
+        return wf(T[2])
+    if k in ('seqof', 'setof'):
+        return wf(T[1])
+    if k in ('seq', 'set', 'choice'):
+        comps = [ft for _, ft in T[1]] if k != 'choice' else list(T[1])
+        if not all(wf(c) for c in comps): return False
+        if k == 'choice' and not comps: return False
+        used = set()
+        for c in comps:
+            o = outer_tags(c)
+            if o is None or (o & used): return False
+            used |= o
+        return True
+    return True
